@@ -30,9 +30,24 @@ func (s *DataSemaphore) Acquire(weight dag.Metric, timeout time.Duration) bool {
 	deadline := time.Now().Add(timeout)
 	s.mu.Lock()
 	defer s.mu.Unlock()
+	var timer *time.Timer
+	expired := false
 	for !s.tryAcquire(weight) {
+		if expired {
+			return false
+		}
 		if weight.Size > s.maxProcessing.Size || weight.Num > s.maxProcessing.Num || time.Now().After(deadline) {
 			return false
+		}
+		if timer == nil {
+			// wake up at the deadline even if nothing is released meanwhile
+			timer = time.AfterFunc(time.Until(deadline), func() {
+				s.mu.Lock()
+				expired = true
+				s.cond.Broadcast()
+				s.mu.Unlock()
+			})
+			defer timer.Stop()
 		}
 		s.cond.Wait()
 	}
